@@ -321,6 +321,31 @@ class Function:
             return ""
         return "<%s>" % k
 
+    def def_forms(self, use_node, subst=True):
+        """canonical forms of every definition of a local that reaches
+        use_node: list of (def_node, form|None); None = unknown value
+        (parameter entry, ++/--, compound assignment, uninitialised).  A
+        self-referential step like `x = x->next` is rendered unsubstituted."""
+        out = []
+        for (dn, val) in self.rd.def_values(use_node):
+            if val in (None, "uninit", "param"):
+                out.append((dn, None if val is None else val))
+            else:
+                out.append((dn, self.canon(val, subst=subst)))
+        return out
+
+    def local_defs(self, decl, subst=True):
+        """canonical forms of all definitions of a local in the function"""
+        out = []
+        for (d, node, val) in self.rd.all_defs(decl):
+            if node == "param":
+                out.append((node, "param"))
+            elif val in (None, "uninit"):
+                out.append((node, val))
+            else:
+                out.append((node, self.canon(val, subst=subst)))
+        return out
+
     def _is_alloc(self, v):
         """a freshly allocated object is named by its variable, not by the
         allocation call"""
@@ -348,12 +373,66 @@ class Function:
 
     @staticmethod
     def _wrap(s):
-        if re.match(r"^[\w.\->\[\]]+$", s) or (s.endswith(")") and re.match(r"^\w+\(", s) and _balanced_call(s)) or (s.startswith("(") and s.endswith(")") and _balanced_paren(s)):
+        if _postfix_safe(s) or (s.startswith("(") and s.endswith(")") and _balanced_paren(s)):
             return s
         return "(" + s + ")"
 
     def __repr__(self):
         return "<fn %s %s>" % (self.name, self.unit)
+
+
+def _skip_balanced(s, i, o, c):
+    d = 0
+    while i < len(s):
+        if s[i] == o:
+            d += 1
+        elif s[i] == c:
+            d -= 1
+            if d == 0:
+                return i + 1
+        i += 1
+    return -1
+
+
+def _postfix_safe(s):
+    """identifier / number / call followed by ->x .x [..] (..) suffixes"""
+    m = re.match(r"^-?[\w]+", s)
+    if not m:
+        return False
+    i = m.end()
+    n = len(s)
+    while i < n:
+        if s[i] == "(":
+            i = _skip_balanced(s, i, "(", ")")
+        elif s[i] == "[":
+            i = _skip_balanced(s, i, "[", "]")
+        elif s.startswith("->", i):
+            m = re.match(r"\w+", s[i + 2:])
+            if not m:
+                return False
+            i += 2 + m.end()
+        elif s[i] == ".":
+            m = re.match(r"\w+", s[i + 1:])
+            if not m:
+                return False
+            i += 1 + m.end()
+        else:
+            return False
+        if i < 0:
+            return False
+    return True
+
+
+def cbin(op, a, b):
+    """canonical rendering of a binary operation from canonical operands
+    (same ordering rules as Function.canon)"""
+    if op in COMMUTATIVE and b < a:
+        a, b = b, a
+    if op == ">":
+        a, b, op = b, a, "<"
+    elif op == ">=":
+        a, b, op = b, a, "<="
+    return "(%s %s %s)" % (a, op, b)
 
 
 def _balanced_call(s):
